@@ -1896,11 +1896,11 @@ MANIFEST = {
     "design_ref": "DESIGN.md 4/C03",
 }
 FINDINGS = [
-    {"status": "fixed", "key": "history:stale-id-Term(t)", "commit": "f0b4a85",
+    {"status": "fixed", "key": "history:stale-id-Term(t)", "commit": "4812387",
      "what": "Term(t) copied t._id: Term(Var('a', bool)) == Var('b', bool) was True once the temporary was freed and its address reused"},
-    {"status": "fixed", "key": "history:stale-id-deepcopy", "commit": "167e4e2",
+    {"status": "fixed", "key": "history:stale-id-deepcopy", "commit": "a013fa9",
      "what": "copy.deepcopy / pickle rebuilt terms with the _id of the original: deepcopy(Var('a', bool)) == Var('b', bool) could be True"},
-    {"status": "fixed", "key": "subst_type_inplace:shared-subobject-twice", "commit": "995b99e",
+    {"status": "fixed", "key": "subst_type_inplace:shared-subobject-twice", "commit": "fe62d74",
      "what": "subst_type_inplace applied the instantiation twice to a sub-object occurring twice in the term (f x x with shared x, {a: ?'a list}) giving an ill-typed term"},
     {"status": "known", "key": ALIAS_KEY,
      "what": "subst_type_inplace rewrites the objects of its target in place; another live term that shares one of these objects changes with it but keeps "
